@@ -277,11 +277,15 @@ def gen_designspace(rng, cff=False):
                    "strike": at(loc, 250, 3, 0, 0), "underline": at(loc, -80, -3, 0, 0)}
         specs.append({"name": name, "glyphs": gl, "shape": shape, "adv": adv, "fea": fea, "metrics": metrics, "loc": loc, "sparse": sparse})
     order = list(range(len(specs))); rng.shuffle(order)         # sources in ANY order, the default need not come first
+    omit_defaults = rng.chance(50)
     masters = []
     for i in order:
         sp = specs[i]
         data = build_master(sp, cff)
         s = SourceDescriptor(); s.name = sp["name"]; s.location = dict(sp["loc"]); s.font = TTFont(io.BytesIO(data))
+        if omit_defaults:
+            # a source may leave out the axes on which it sits at the default (designspace format 5): the reader fills them in
+            s.location = {k: v for k, v in sp["loc"].items() if v != default[k]}
         s.familyName = "Gen10"; s.styleName = sp["name"]
         doc.addSource(s)
         user = {}
@@ -290,7 +294,7 @@ def gen_designspace(rng, cff=False):
         masters.append((sp["name"], user, data, sp))
     desc = {"axes": [(t, doc.getAxis(n).minimum, doc.getAxis(n).default, doc.getAxis(n).maximum) for n, t, *_ in ax], "maps": maps,
             "texts": ["".join(p) for p in kern_pairs] + [l + r for l in class_left for r in class_right],
-            "order": [specs[i]["name"] for i in order], "locations": [specs[i]["loc"] for i in order], "sparse": sparse_glyph, "cff": cff, "marks": with_marks}
+            "order": [specs[i]["name"] for i in order], "locations": [specs[i]["loc"] for i in order], "sparse": sparse_glyph, "cff": cff, "marks": with_marks, "omit_defaults": omit_defaults}
     return doc, masters, desc
 
 def _pts(calls):
